@@ -4,6 +4,7 @@ mod c03;
 mod c11;
 mod c14;
 mod c18;
+mod cosm;
 mod gen;
 mod hist;
 mod net;
@@ -40,6 +41,8 @@ fn main() {
         "PARSE" => c11::run_parse(seed, n, &mut out),
         "C02" => c02::run(seed, n, &mut out, args.get(5).map(|s| s.as_str()).unwrap_or("quick")),
         "C03" => c03::run(seed, n, &mut out, args.get(5).map(|s| s.as_str()).unwrap_or("quick")),
+        "C16" => cosm::run_c16(seed, n, &mut out),
+        "C17" => cosm::run_c17(seed, n, &mut out),
         "C13" => targeted::run_c13(seed, n, &mut out),
         "C15" => targeted::run_c15(seed, n, &mut out),
         _ => {
